@@ -39,8 +39,19 @@ type caseJ struct {
 
 func (c *caseJ) key() string { return fmt.Sprintf("%+v/%+v", c.Cfg, c.Ops) }
 
+// idents: k = 1, 2: that many distinct identities; k = 3: [A, A, B]; k = 4: [A, A] - a trigger
+// may name the same identity preimage twice (keypers sort, they never deduplicate), so the
+// lists are non-decreasing, not strictly increasing.
 func idents(fl string, k int) []string {
-	ids := []string{idA, idB}[:k]
+	var ids []string
+	switch k {
+	case 3:
+		ids = []string{idA, idA, idB}
+	case 4:
+		ids = []string{idA, idA}
+	default:
+		ids = []string{idA, idB}[:k]
+	}
 	if fl == "gnosis" {
 		for i := range ids {
 			ids[i] = wide(ids[i])
@@ -394,7 +405,7 @@ func main() {
 	run := vh.Start("Verif.Corr.C03", 60)
 	defer run.Finish()
 	run.SetPreamble("From Verif Require Import Model.EpochKG Model.EpochKGLabels Model.EpochKGHandler Model.GossipNet.\nOpen Scope N_scope.")
-	run.Rule = "schedules on n real handler stacks per flavour: (core, n=3, t=2, one identity) all interleavings of the three triggers and six share deliveries up to renaming of the nodes, keys messages delivered lazily (keys messages delivered lazily; thorough: eagerly as well), all interleavings with two triggered keypers; sampled complete schedules with losses (up to n-t share messages per receiver), duplicates, repeated triggers for core / service / Gnosis (+ access node), n <= 5, one or two identities; sampled partial schedules; sampled two-round schedules (every keyper triggered for the first identity, then for both); non-trivial = at least one keys message was published; distinct by canonical rendering of configuration and schedule"
+	run.Rule = "schedules on n real handler stacks per flavour: (core, n=3, t=2, one identity) all interleavings of the three triggers and six share deliveries up to renaming of the nodes, keys messages delivered lazily (keys messages delivered lazily; thorough: eagerly as well), all interleavings with two triggered keypers; all interleavings with two triggered keypers whose trigger names the same identity twice; sampled complete schedules (one or two identities, [A, A, B], [A, A]) with losses (up to n-t share messages per receiver), duplicates, repeated triggers for core / service / Gnosis (+ access node), n <= 5, one or two identities; sampled partial schedules; sampled two-round schedules (every keyper triggered for the first identity, then for both); non-trivial = at least one keys message was published; distinct by canonical rendering of configuration and schedule"
 	workers := runtime.NumCPU() / 2
 	if workers < 1 {
 		workers = 1
@@ -447,6 +458,13 @@ func main() {
 				emit(&caseJ{Cfg: cfg, Ops: withKeys(ops, true), Complete: true, Origin: "exhaustive:" + fl + ":two-triggered:eager-keys"})
 			})
 		}
+		// the same identity preimage twice in one trigger (non-decreasing, not strictly increasing)
+		for _, fl := range []string{"core", "service", "gnosis"} {
+			cfg := g.SimConfig{Flavour: fl, N: 3, T: 2, Idents: idents(fl, 4)}
+			interleavings(3, []int{0, 1}, allDeliveries(3, []int{0, 1}), func(ops []g.SimOp) {
+				emit(&caseJ{Cfg: cfg, Ops: withKeys(ops, false), Complete: true, Origin: "exhaustive:" + fl + ":two-triggered:repeated-identity"})
+			})
+		}
 		if run.Thorough {
 			for _, fl := range []string{"service", "gnosis"} {
 				cfg := g.SimConfig{Flavour: fl, N: 3, T: 2, Idents: idents(fl, 1)}
@@ -455,7 +473,7 @@ func main() {
 				})
 			}
 		}
-		shapes := [][3]int{{3, 2, 1}, {3, 2, 2}, {4, 2, 1}, {4, 3, 1}, {5, 3, 1}}
+		shapes := [][3]int{{3, 2, 1}, {3, 2, 2}, {4, 2, 1}, {4, 3, 1}, {5, 3, 1}, {3, 2, 3}, {4, 2, 4}}
 		for _, fl := range []string{"core", "service", "gnosis"} {
 			for i, n := 0, run.Scale(110, 1700); i < n; i++ {
 				sh := shapes[run.RNG.Intn(len(shapes))]
